@@ -171,6 +171,54 @@ theorem block_first_value (kvs : List (String × String)) (k : String) (hk : lis
   unfold blockConfig
   rw [foldl_addKV_scalar kvs [] k hk]; rfl
 
+private theorem addKV_get_list (cfg : Dict) (key value : String) (hk : listKeys.contains (lower key) = true) :
+    (addKV cfg key value).get (lower key) = some (.list (listOf (cfg.get (lower key)) ++ [unquote value])) := by
+  have hpc : (lower key == "proxycommand") = false := by
+    simp only [listKeys, List.contains_cons, List.contains_nil, Bool.or_false, Bool.or_eq_true, beq_iff_eq] at hk
+    rcases hk with h | h | h <;> rw [h] <;> decide
+  unfold addKV
+  simp only [hpc, Bool.false_and, Bool.false_eq_true, if_false, hk, if_true]
+  cases hc : cfg.get (lower key) with
+  | none => simp [Dict.get_set_same, listOf]
+  | some v =>
+    cases v with
+    | list l => simp [Dict.get_set_same, listOf]
+    | str s => simp [Dict.get_set_same, listOf]
+    | none => simp [Dict.get_set_same, listOf]
+
+private theorem foldl_addKV_list (kvs : List (String × String)) (acc : Dict) (k : String)
+    (hk : listKeys.contains k = true) :
+    (kvs.foldl (fun c kv => addKV c kv.1 kv.2) acc).get k =
+      if (kvs.filter (fun kv => lower kv.1 == k)).isEmpty then acc.get k
+      else some (.list (listOf (acc.get k) ++ (kvs.filter (fun kv => lower kv.1 == k)).map (fun kv => unquote kv.2))) := by
+  induction kvs generalizing acc with
+  | nil => simp
+  | cons kv rest ih =>
+    simp only [List.foldl_cons, ih]
+    by_cases hkey : lower kv.1 = k
+    · subst hkey
+      rw [addKV_get_list _ _ _ hk]
+      simp only [List.filter_cons, BEq.rfl, if_true, List.isEmpty_cons, Bool.false_eq_true, if_false, listOf,
+        List.map_cons, List.append_assoc, List.singleton_append]
+      split
+      · rename_i he
+        rw [List.isEmpty_iff] at he
+        simp [he]
+      · rfl
+    · have hne : k ≠ lower kv.1 := fun e => hkey e.symm
+      rw [addKV_get_other _ _ _ _ hne]
+      have : (lower kv.1 == k) = false := by simpa using hkey
+      simp only [List.filter_cons, this, Bool.false_eq_true, if_false]
+
+/-- the multi-valued keywords (IdentityFile, LocalForward, RemoteForward) keep every value of the block, in order -/
+theorem block_list_values (kvs : List (String × String)) (k : String) (hk : listKeys.contains k = true) :
+    (blockConfig kvs).get k =
+      if (kvs.filter (fun kv => lower kv.1 == k)).isEmpty then none
+      else some (.list ((kvs.filter (fun kv => lower kv.1 == k)).map (fun kv => unquote kv.2))) := by
+  unfold blockConfig
+  rw [foldl_addKV_list kvs [] k hk]
+  simp [Dict.get_nil, listOf]
+
 example : blockConfig [("ProxyCommand", "ssh gw"), ("User", "\"bob\""), ("PROXYCOMMAND", "None"), ("user", "eve")]
     = [("proxycommand", .str "ssh gw"), ("user", .str "bob")] := by decide
 example : blockConfig [("ProxyCommand", "NONE"), ("proxycommand", "ssh gw"), ("IdentityFile", "a"), ("identityfile", "a")]
@@ -480,6 +528,96 @@ example : lookupLines demoEnv demoLines "web1" = .ok
 example : lookupLines demoEnv demoLines "web2" = .ok
     [("user", .str "global"), ("identityfile", .list ["k1"]), ("proxycommand", .str "ssh gw"),
      ("hostname", .str "web2")] := by rfl
+
+/-! ## token expansion: HostName first, every other option sees the expanded HostName -/
+
+/-- the options with HostName expanded (what every other option's `%h` refers to) -/
+def withExpandedHostname (env : Env) (cfg : Dict) (target : String) : Dict :=
+  match cfg.get "hostname" with
+  | some v => cfg.set "hostname" (expandVal env cfg target "hostname" v)
+  | none => cfg
+
+/-- HostName admits exactly `%h`, which stands for the looked-up name -/
+theorem tokenize_hostname (env : Env) (cfg : Dict) (target value : String) :
+    tokenize env cfg target "hostname" value
+      = String.ofList (replaceAll "%h".toList target.toList value.toList) := by
+  simp [tokenize, allowedTokens, PV.Generated.C40.tokensByConfigKey, PV.Generated.C40.replacementOrder, List.lookup]
+
+/-- **Expansion.**  Whatever the order of the options in the dict: `hostname` is expanded against the looked-up
+name, and every other option `k` is expanded by `_tokenize` against the options *with the expanded HostName*
+(so `%h` is never replaced by an unexpanded HostName — the defect fixed in 35b26ba); `None` stays `None`,
+list values are expanded element-wise, keys without documented tokens are untouched. -/
+theorem expandVariables_get (env : Env) (cfg : Dict) (target : String) (hn : NodupKeys cfg) :
+    (expandVariables env cfg target).get "hostname"
+        = (cfg.get "hostname").map (expandVal env cfg target "hostname") ∧
+    ∀ k, k ≠ "hostname" →
+      (expandVariables env cfg target).get k
+        = (cfg.get k).map (expandVal env (withExpandedHostname env cfg target) target k) := by
+  unfold expandVariables
+  simp only
+  rw [expandKeys_append]
+  have hnd : (cfg.map (·.1)).Nodup := hn
+  have hfil : (cfg.map (·.1)).filter (· == "hostname")
+      = if "hostname" ∈ cfg.map (·.1) then ["hostname"] else [] := filter_eq_of_nodup _ _ hnd
+  have hR : expandKeys env target ((cfg.map (·.1)).filter (· == "hostname")) cfg
+      = withExpandedHostname env cfg target := by
+    rw [hfil]
+    unfold withExpandedHostname
+    cases hc : cfg.get "hostname" with
+    | none =>
+      have : "hostname" ∉ cfg.map (·.1) := by
+        intro hm
+        obtain ⟨v, hv⟩ := (mem_keys_iff cfg "hostname").mp hm
+        rw [hc] at hv; cases hv
+      simp [this, expandKeys]
+    | some v =>
+      have : "hostname" ∈ cfg.map (·.1) := (mem_keys_iff cfg "hostname").mpr ⟨v, hc⟩
+      simp [this, expandKeys, hc]
+  rw [hR]
+  have hnd2 : ((cfg.map (·.1)).filter (· != "hostname")).Nodup := hnd.filter _
+  have hnh : "hostname" ∉ (cfg.map (·.1)).filter (· != "hostname") := by simp
+  have hspec := expandKeys_spec env target (withExpandedHostname env cfg target) _ hnd2 hnh
+    (withExpandedHostname env cfg target) ⟨rfl, rfl, rfl⟩
+  refine ⟨?_, ?_⟩
+  · rw [hspec "hostname"]
+    simp only [hnh, if_false]
+    unfold withExpandedHostname
+    cases hc : cfg.get "hostname" with
+    | none => simp [hc]
+    | some v => simp [Dict.get_set_same]
+  · intro k hk
+    rw [hspec k]
+    have hget : (withExpandedHostname env cfg target).get k = cfg.get k := by
+      unfold withExpandedHostname
+      cases cfg.get "hostname" with
+      | none => rfl
+      | some v => exact Dict.get_set_other _ _ _ _ hk
+    rw [hget]
+    split
+    · rfl
+    · rename_i hnot
+      have : cfg.get k = none := by
+        cases hc : cfg.get k with
+        | none => rfl
+        | some v =>
+          exfalso; apply hnot
+          simp only [List.mem_filter, bne_iff_ne, ne_eq]
+          exact ⟨(mem_keys_iff cfg k).mpr ⟨v, hc⟩, hk⟩
+      simp [this]
+
+/-- the value `%h` gets in every option other than HostName: the expanded HostName -/
+theorem percent_h_is_expanded_hostname (env : Env) (cfg : Dict) (target v : String)
+    (hv : cfg.get "hostname" = some (.str v)) :
+    (withExpandedHostname env cfg target).get "hostname"
+      = some (.str (String.ofList (replaceAll "%h".toList target.toList v.toList))) := by
+  simp [withExpandedHostname, hv, Dict.get_set_same, expandVal, tokenize_hostname]
+
+example : expandVariables demoEnv
+    [("proxycommand", .str "ssh -W %h:%p ~/x"), ("hostname", .str "%h.example.com"), ("port", .str "2222"),
+     ("identityfile", .list ["~/.ssh/id_%h", "%d/%u-%r"]), ("user", .str "bob"), ("compression", .str "%h")] "web1"
+    = [("proxycommand", .str "ssh -W web1.example.com:2222 /home/lu/x"), ("hostname", .str "web1.example.com"),
+       ("port", .str "2222"), ("identityfile", .list ["/home/lu/.ssh/id_web1.example.com", "/home/lu/lu-bob"]),
+       ("user", .str "bob"), ("compression", .str "%h")] := by decide
 
 /-! ## get_hostnames: every Host pattern, for every parseable config -/
 
